@@ -202,7 +202,18 @@ def shard_register(args):
     v_diag = type('VendorDiag', (dm.DiagnosticStatusRequest if side == 'req' else dm.DiagnosticStatusResponse,), dict(sub_function_code=0x64))
     v_mei = type('VendorMei', (mm.ReadDeviceInformationRequest if side == 'req' else mm.ReadDeviceInformationResponse,), dict(sub_function_code=0x0D))
     v_new = vendor('VendorFc45', 0x45)
-    for v in (v_diag, v_mei, v_new):
+
+    def vendor_sub(name, fc, sub):
+        # a function code of the application's own that is split into sub-functions (no function-level class exists)
+        def decode(self, data):
+            self.sub_function_code = struct.unpack('>H', bytes(data[:2]))[0]
+            self.raw = bytes(data)
+        c = vendor(name, fc)
+        c.sub_function_code = sub
+        c.decode = decode
+        return c
+    v_s1, v_s2 = vendor_sub('VendorFc46Sub1', 0x46, 1), vendor_sub('VendorFc46Sub2', 0x46, 2)
+    for v in (v_diag, v_mei, v_new, v_s1, v_s2):
         dec.register(v)
     kinds = ('req',) if side == 'req' else ('rsp', 'exc')
     for kind, fc in gen.CLASSES:
@@ -229,7 +240,8 @@ def shard_register(args):
             if got != want:
                 acc.violation('C01/%s/dec/after-register' % want, dict(cls=want, dir='register', side=side, pdu=raw.hex()),
                               'after registering vendor classes on this decoder a standard %s PDU decodes as %s' % (want, got), want)
-    for v, raw in ((v_diag, struct.pack('>BHH', 8, 0x64, 1)), (v_mei, bytes([0x2B, 0x0D, 1, 0]) if side == 'req' else bytes([0x2B, 0x0D, 1, 1, 0, 0, 0])), (v_new, bytes([0x45, 9, 9]))):
+    for v, raw in ((v_diag, struct.pack('>BHH', 8, 0x64, 1)), (v_mei, bytes([0x2B, 0x0D, 1, 0]) if side == 'req' else bytes([0x2B, 0x0D, 1, 1, 0, 0, 0])), (v_new, bytes([0x45, 9, 9])),
+                   (v_s1, bytes([0x46, 0, 1, 7])), (v_s2, bytes([0x46, 0, 2, 7])), (v_s1, bytes([0x46, 0, 1]))):
         acc.inc('evaluations')
         try:
             got = type(dec.decode(raw)).__name__
